@@ -413,7 +413,7 @@ def requests_parts():
                ensures='''
                  // C11/C08: once execute() has run to its end -- whether the handler completed or was aborted by the channel --
                  // the guard is disarmed: no cancellation is queued for an id the channel has already finished with
-                 Self::no_cancel_since(old(fx).log, final(fx).log), // @C08,C11
+                 Self::no_cancel_since(old(fx).log, final(fx).log), // @C04,C08,C11,C12
                  // C08: at most one handler invocation and one response, for this request's id
                  final(fx).log == old(fx).log || final(fx).log == old(fx).log.push(SEffect::Handler).push(SEffect::Respond { id: self.request.id }), // @C08
                '''),
